@@ -22,3 +22,14 @@ func verifGate(name string) {
 		h(name)
 	}
 }
+
+// VerifIndexBytes, when positive, replaces the default index pre-allocation
+// (10 MiB) so that index growth is reached with a handful of entries.
+var VerifIndexBytes int64
+
+func verifIndexBytes(b int64) int64 {
+	if b == 0 && VerifIndexBytes > 0 {
+		return VerifIndexBytes
+	}
+	return b
+}
